@@ -32,6 +32,11 @@ NonceOf(id, d, k) == Sha256(<<IF d = "c2s" THEN 1 ELSE 2, k % 256>> \o Tag8(id))
 Payload(d, k, n) == [i \in 1..n |-> (7 * (i - 1) + 13 * k + (IF d = "c2s" THEN 101 ELSE 59) + n) % 256]
 
 \* ------------------------------------------------------------------ fault classes
+IdNames == <<"pong", "ping", "authnonce", "authcomplete", "query", "answer">>
+IdOf(nm) == CASE nm = "pong" -> IdTcpPong [] nm = "ping" -> IdTcpPing [] nm = "authnonce" -> IdTcpAuthNonce
+              [] nm = "authcomplete" -> IdTcpAuthComplete [] nm = "query" -> IdAdnlQuery [] nm = "answer" -> IdAdnlAnswer
+IdLens   == <<4, 11, 12, 13, 16, 20, 64, 1000>>
+MarkLens == <<5, 6, 7, 8, 9, 10, 14, 15>>
 Regs   == <<"len", "nonce", "payload", "sum">>
 HsRegs == <<"keyid", "pub", "hash", "params">>
 Classes ==
@@ -64,6 +69,10 @@ Classes ==
        \* fault-free, server->client payloads that do not grow: a receiver that recycles its frame buffer
        \* writes the later frames over the earlier ones (the harness holds every delivered packet and re-reads it)
        [f |-> "none", d |-> "s2c", tgt |-> "shrink", reg |-> "none", n |-> 0]>>
+  \* fault-free, payload CONTENT classes: payloads that begin with a constructor id the transport or the client
+  \* layer above it interprets, at lengths around the 12 bytes of a real tcp.pong, each server->client one followed
+  \* by an ordinary marker packet; the client sends the same kinds of payload
+  \o [i \in 1..Len(IdNames) |-> [f |-> "none", d |-> "s2c", tgt |-> "ids", reg |-> IdNames[i], n |-> 0]]
 NCls == Len(Classes)
 Shrinking == << <<1000, 60, 60, 3>>, <<65535, 1000, 1000, 1>>, <<60, 60, 4, 4>>, <<1000, 1000, 1000, 0>>, <<4, 3, 1, 1>> >>
 
@@ -77,7 +86,7 @@ MkPlan(id) ==
   LET c   == Classes[((id - 1) % NCls) + 1]
       \* number of data frames per direction; the targeted direction has enough of them
       nT  == IF c.tgt = "later" THEN 2 + Rnd(id, 1, 3) ELSE IF c.tgt = "first" THEN 1 + Rnd(id, 1, 3)
-             ELSE IF c.tgt = "shrink" THEN 4 ELSE Rnd(id, 1, 5)
+             ELSE IF c.tgt = "shrink" THEN 4 ELSE IF c.tgt = "ids" THEN 2 * Len(IdLens) ELSE Rnd(id, 1, 5)
       nO  == Rnd(id, 2, 5)
       \* index (in sent[d]) of the targeted frame; 0 = handshake / none
       j   == CASE c.tgt = "ack"   -> 1
@@ -86,8 +95,11 @@ MkPlan(id) ==
                [] OTHER -> 0
       jd  == IF c.d = "s2c" THEN j - 1 ELSE j                      \* its index among the data frames
       szT == IF c.tgt = "shrink" THEN PickSeq(Shrinking, id, 9)
+             ELSE IF c.tgt = "ids" THEN [k \in 1..nT |-> IF k % 2 = 1 THEN IdLens[(k + 1) \div 2] ELSE MarkLens[k \div 2]]
              ELSE [k \in 1..nT |-> IF k = jd /\ c.reg = "payload" THEN PickSeq(SizeBag1, id, 10 + k) ELSE PickSeq(SizeBag, id, 10 + k)]
-      szO == [k \in 1..nO |-> PickSeq(SizeBag, id, 20 + k)]
+      \* (a 12-byte tcp.ping from the client could not be told from the pings the client originates by itself)
+      szO == IF c.tgt = "ids" THEN [k \in 1..Len(IdLens) |-> IF c.reg = "ping" /\ IdLens[k] = 12 THEN 14 ELSE IdLens[k]]
+             ELSE [k \in 1..nO |-> PickSeq(SizeBag, id, 20 + k)]
   IN [id |-> id, c |-> c, j |-> j,
       name |-> StrCat(StrCat(StrCat(c.f, "-"), StrCat(c.d, "-")), StrCat(StrCat(c.tgt, "-"), IF c.f = "hdr" THEN ToString(c.n) ELSE c.reg)),
       sizes |-> IF c.d = "s2c" THEN [s2c |-> szT, c2s |-> szO] ELSE [c2s |-> szT, s2c |-> szO]]
@@ -143,12 +155,15 @@ Do(m) ==
          /\ must' = (IF Targets("s2c", 1) THEN FaultMoves ELSE <<>>)
          /\ UNCHANGED <<todo, budget, arr>> /\ Log(m @@ [d |-> "s2c", idx |-> 1, size |-> 0])
     [] m.k = "Send" ->
-         LET d == m.d  idx == Len(sent[d]) + 1  n == Head(todo[d])  pl == Payload(d, idx, n) IN
+         LET d == m.d  idx == Len(sent[d]) + 1  n == Head(todo[d])
+             \* content classes: every client->server payload and every second server->client one starts with the id
+             pre == IF plan.c.tgt = "ids" /\ (d = "c2s" \/ idx % 2 = 0) THEN IdOf(plan.c.reg) ELSE <<>>
+             pl == pre \o SubSeq(Payload(d, idx, n), Len(pre) + 1, n) IN
          /\ Send(d, pl, NonceOf(plan.id, d, idx))
          /\ todo' = [todo EXCEPT ![d] = Tail(@)]
          /\ must' = (IF Targets(d, idx) THEN FaultMoves ELSE <<>>)
          /\ UNCHANGED <<budget, arr>>
-         /\ Log(m @@ [idx |-> idx, size |-> n, sha |-> BytesToHex(Sha256(pl))])
+         /\ Log(m @@ [idx |-> idx, size |-> n, sha |-> BytesToHex(Sha256(pl)), pre |-> BytesToHex(pre)])
     [] m.k = "Hdr" ->
          /\ SendHeaderOnly(m.d, plan.c.n)
          /\ todo' = [todo EXCEPT ![m.d] = <<>>]
@@ -183,7 +198,9 @@ Do(m) ==
     [] m.k = "Dlv" ->
          /\ Deliver(m.d)
          /\ UNCHANGED <<todo, must, budget, arr>>
-         /\ Log(m @@ [res |-> DeliverKind(m.d), idx |-> Len(delivered[m.d]) + 1])
+         \* user: what the client's connection does with a valid server->client packet ("no" = hands it to its user)
+         /\ Log(m @@ [res |-> DeliverKind(m.d), idx |-> Len(delivered[m.d]) + 1,
+                      user |-> IF m.d = "s2c" /\ DeliverKind(m.d) = "pkt" THEN Absorbs(Look(m.d).payload) ELSE "no"])
 
 \* the moves that are possible now, as a sequence (the walk picks one)
 Cands ==
